@@ -234,4 +234,4 @@ def sized_temporaries():
 def obligations():  # noqa: F811
     from tx.p_c05 import share
     from tx.p_c09 import initializer_kinds, initializer_positions
-    return _c03_base() + print_at() + helpers_shared_with_c20() + val_helper() + sized_temporaries() + share("kind/", __import__("tx.p_c14", fromlist=["x"]).rule_kinds()) + share("init/", initializer_kinds() + initializer_positions()) + share("read/", __import__("tx.p_c05", fromlist=["x"]).read_targets_through_filter())
+    return _c03_base() + print_at() + helpers_shared_with_c20() + val_helper() + sized_temporaries() + share("data-text/", __import__("tx.p_c08", fromlist=["x"]).content()) + share("kind/", __import__("tx.p_c14", fromlist=["x"]).rule_kinds()) + share("init/", initializer_kinds() + initializer_positions()) + share("read/", __import__("tx.p_c05", fromlist=["x"]).read_targets_through_filter())
